@@ -20,9 +20,13 @@
 (*               held by the Runtime and by every module compiled from it  *)
 (*               (declare_constant clones every registered constant's Arc  *)
 (*               into the module)                                          *)
-(*   closure g  = the state captured by the registered closure; held by    *)
+(*   fn <<g,f>> = the state captured by the f-th registered closure of     *)
+(*               generation g (f in Fns).  All registered closures are     *)
+(*               made by ONE factory function, so they have the same Rust  *)
+(*               type (and share one trampoline), but each is a value of   *)
+(*               its own with its own captured counter; each is held by    *)
 (*               the Runtime and by every module compiled from it whose    *)
-(*               script calls the closure (registered_fns)                 *)
+(*               script calls that very closure (registered_fns)           *)
 (*                                                                         *)
 (* The design is reference counting: rc fields are the Arc strong counts,  *)
 (* nfree/cfree/ffree count how often a resource has been released.  The    *)
@@ -30,11 +34,14 @@
 (* when the holder set becomes empty and not before".                      *)
 (*                                                                         *)
 (* Two script versions (harness/src/bin/c11.rs `script`):                  *)
-(*   version 1: one tracked script constant (tag 11), main() returns       *)
-(*              (11, tag of the registered constant, closure counter++)    *)
-(*   version 2: two tracked script constants (22 + 20), main() returns     *)
-(*              (42, tag of the registered constant, NoCount); it does     *)
-(*              not call the closure                                       *)
+(*   version 1: one tracked script constant (tag 11), calls the registered *)
+(*              closures 1 and 2: main() returns (11, tag of the           *)
+(*              registered constant, counter 1 ++, counter 2 ++)           *)
+(*   version 2: two tracked script constants (22 + 20), calls the          *)
+(*              registered closures 2 and 3: main() returns (42, tag of    *)
+(*              the registered constant, counter 2 ++, counter 3 ++)       *)
+(* so closure 1 is needed only by version-1 modules, closure 3 only by     *)
+(* version-2 modules, closure 2 by both.                                   *)
 (***************************************************************************)
 EXTENDS Naturals, Sequences, FiniteSets, TLC
 
@@ -46,13 +53,15 @@ CONSTANTS Versions,   \* script versions that may be compiled (subset of {1, 2})
 
 NConst(v)      == IF v = 1 THEN 1 ELSE 2      \* tracked script constants of version v
 KSum(v)        == IF v = 1 THEN 11 ELSE 42    \* what main() reads from its script constants
-UsesClosure(v) == v = 1
+Fns            == 1..3                        \* the registered closures of a runtime
+UsesSeq(v)     == IF v = 1 THEN <<1, 2>> ELSE <<2, 3>>   \* the closures main() calls, in order
+Uses(v)        == {UsesSeq(v)[1], UsesSeq(v)[2]}
+Base(f)        == 2000 * f                    \* where the counter captured by closure f starts
 RcTag(g)       == 50 + g                      \* value of the registered constant of generation g
-NoCount        == 9999
-NoRes          == [k |-> 0, rc |-> 0, n |-> 0]
+NoRes          == [k |-> 0, rc |-> 0, na |-> 0, nb |-> 0]
 
 VARIABLES rt,     \* 0, or the generation of the Runtime object that is alive
-          gens,   \* per generation: [crc, cfree, frc, ffree, cnt]
+          gens,   \* per generation: [crc, cfree, frc, ffree, cnt]; the last three per closure
           mods,   \* per compilation: [v, g, pobj, rc, nfree]
           hnd,    \* handle slot -> module (0 = slot empty)
           clo,    \* closure slot -> module (0 = slot empty)
@@ -71,8 +80,8 @@ HoldersM(m) == (IF mods[m].pobj THEN {<<"p", 0>>} ELSE {})
 Held(m)     == HoldersM(m) # {}
 HoldersC(g) == (IF rt = g THEN {<<"r", 0>>} ELSE {})
                \cup {<<"m", m>> : m \in {x \in Mods : mods[x].g = g /\ Held(x)}}
-HoldersF(g) == (IF rt = g THEN {<<"r", 0>>} ELSE {})
-               \cup {<<"m", m>> : m \in {x \in Mods : mods[x].g = g /\ UsesClosure(mods[x].v) /\ Held(x)}}
+HoldersF(g, f) == (IF rt = g THEN {<<"r", 0>>} ELSE {})
+               \cup {<<"m", m>> : m \in {x \in Mods : mods[x].g = g /\ f \in Uses(mods[x].v) /\ Held(x)}}
 
 (* ---- observations -------------------------------------------------------- *)
 LiveK(v) == NConst(v) * Cardinality({m \in Mods : mods[m].v = v /\ mods[m].nfree = 0})
@@ -80,34 +89,36 @@ LiveK(v) == NConst(v) * Cardinality({m \in Mods : mods[m].v = v /\ mods[m].nfree
 Live == [k1  |-> LiveK(1),
          k2  |-> LiveK(2),
          rc  |-> Cardinality({g \in Gens : gens[g].cfree = 0}),
-         cap |-> Cardinality({g \in Gens : gens[g].ffree = 0})]
+         cap |-> [f \in Fns |-> Cardinality({g \in Gens : gens[g].ffree[f] = 0})]]
 
-LiveVec == <<Live.k1, Live.k2, Live.rc, Live.cap>>   \* the order the harness reports them in
+\* the order the harness reports them in
+LiveVec == <<Live.k1, Live.k2, Live.rc, Live.cap[1], Live.cap[2], Live.cap[3]>>
 
 (* what main() of module m returns when called now *)
 Result(m) == LET v == mods[m].v  g == mods[m].g
              IN [k |-> KSum(v), rc |-> RcTag(g),
-                 n |-> IF UsesClosure(v) THEN gens[g].cnt ELSE NoCount]
+                 na |-> gens[g].cnt[UsesSeq(v)[1]], nb |-> gens[g].cnt[UsesSeq(v)[2]]]
 
-ResVec(o) == <<o.k, o.rc, o.n>>
+ResVec(o) == <<o.k, o.rc, o.na, o.nb>>
 
 (* ---- reference counting -------------------------------------------------- *)
-(* generation record r loses a holder of its constant (c) / closure (f) *)
-DecGen(r, c, f) ==
-    LET crc1 == IF c THEN r.crc - 1 ELSE r.crc
-        frc1 == IF f THEN r.frc - 1 ELSE r.frc
-    IN [r EXCEPT !.crc = crc1, !.cfree = IF c /\ crc1 = 0 THEN @ + 1 ELSE @,
-                 !.frc = frc1, !.ffree = IF f /\ frc1 = 0 THEN @ + 1 ELSE @]
+(* generation record r loses a holder of its constant and of the closures in FS *)
+DecGen(r, FS) ==
+    LET crc1 == r.crc - 1
+        frc1 == [f \in Fns |-> IF f \in FS THEN r.frc[f] - 1 ELSE r.frc[f]]
+    IN [r EXCEPT !.crc = crc1, !.cfree = IF crc1 = 0 THEN @ + 1 ELSE @,
+                 !.frc = frc1,
+                 !.ffree = [f \in Fns |-> IF f \in FS /\ frc1[f] = 0 THEN @[f] + 1 ELSE @[f]]]
 
 (* module m of M loses one holder; the last one releases the module *)
 DecModM(M, m) == [M EXCEPT ![m].rc = @ - 1,
                            ![m].nfree = IF M[m].rc = 1 THEN @ + 1 ELSE @]
 (* ... and with it the module's share in the resources of its generation *)
 DecModG(G, M, m) == IF M[m].rc = 1
-                    THEN [G EXCEPT ![M[m].g] = DecGen(@, TRUE, UsesClosure(M[m].v))]
+                    THEN [G EXCEPT ![M[m].g] = DecGen(@, Uses(M[m].v))]
                     ELSE G
-(* the closure runs once if the script of m calls it *)
-CallG(G, m) == IF UsesClosure(mods[m].v) THEN [G EXCEPT ![mods[m].g].cnt = @ + 1] ELSE G
+(* every closure the script of m calls runs once *)
+CallG(G, m) == [G EXCEPT ![mods[m].g].cnt = [f \in Fns |-> IF f \in Uses(mods[m].v) THEN @[f] + 1 ELSE @[f]]]
 
 (* ---- actions --------------------------------------------------------------- *)
 Init == /\ rt = 0 /\ gens = <<>> /\ mods = <<>> /\ obs = NoRes
@@ -115,7 +126,8 @@ Init == /\ rt = 0 /\ gens = <<>> /\ mods = <<>> /\ obs = NoRes
 
 BuildRuntime ==
     /\ rt = 0 /\ Len(gens) < MaxGens
-    /\ gens' = Append(gens, [crc |-> 1, cfree |-> 0, frc |-> 1, ffree |-> 0, cnt |-> 0])
+    /\ gens' = Append(gens, [crc |-> 1, cfree |-> 0, frc |-> [f \in Fns |-> 1],
+                              ffree |-> [f \in Fns |-> 0], cnt |-> [f \in Fns |-> Base(f)]])
     /\ rt' = Len(gens) + 1
     /\ UNCHANGED <<mods, hnd, clo>> /\ obs' = NoRes
 
@@ -123,7 +135,7 @@ Compile(v) ==
     /\ rt # 0 /\ Len(mods) < MaxMods
     /\ mods' = Append(mods, [v |-> v, g |-> rt, pobj |-> TRUE, rc |-> 1, nfree |-> 0])
     /\ gens' = [gens EXCEPT ![rt].crc = @ + 1,
-                            ![rt].frc = IF UsesClosure(v) THEN @ + 1 ELSE @]
+                            ![rt].frc = [f \in Fns |-> IF f \in Uses(v) THEN @[f] + 1 ELSE @[f]]]
     /\ UNCHANGED <<rt, hnd, clo>> /\ obs' = NoRes
 
 GetHandle(m, h) ==
@@ -161,7 +173,7 @@ DropPkg(m) ==
 DropRuntime ==
     /\ rt # 0
     /\ rt' = 0
-    /\ gens' = [gens EXCEPT ![rt] = DecGen(@, TRUE, TRUE)]
+    /\ gens' = [gens EXCEPT ![rt] = DecGen(@, Fns)]
     /\ UNCHANGED <<mods, hnd, clo>> /\ obs' = NoRes
 
 (* the handle is moved to another thread, called there once and dropped there *)
@@ -208,7 +220,7 @@ Spec == Init /\ [][Next]_vars
 (* ---- what the design must guarantee ---------------------------------------- *)
 TypeOK ==
     /\ rt \in 0..Len(gens)
-    /\ \A g \in Gens : gens[g] \in [crc : Nat, cfree : Nat, frc : Nat, ffree : Nat, cnt : Nat]
+    /\ \A g \in Gens : gens[g] \in [crc : Nat, cfree : Nat, frc : [Fns -> Nat], ffree : [Fns -> Nat], cnt : [Fns -> Nat]]
     /\ \A m \in Mods : mods[m] \in [v : Versions, g : Gens, pobj : BOOLEAN, rc : Nat, nfree : Nat]
     /\ hnd \in [Handles -> 0..Len(mods)]
     /\ clo \in [Closures -> 0..Len(mods)]
@@ -217,18 +229,18 @@ TypeOK ==
 RefCountsExact ==
     /\ \A m \in Mods : mods[m].rc = Cardinality(HoldersM(m))
     /\ \A g \in Gens : /\ gens[g].crc = Cardinality(HoldersC(g))
-                       /\ gens[g].frc = Cardinality(HoldersF(g))
+                       /\ \A f \in Fns : gens[g].frc[f] = Cardinality(HoldersF(g, f))
 
 (* released iff nobody holds it, exactly once, never while held *)
 FreedIffUnheld ==
     /\ \A m \in Mods : mods[m].nfree = IF Held(m) THEN 0 ELSE 1
     /\ \A g \in Gens : /\ gens[g].cfree = IF HoldersC(g) # {} THEN 0 ELSE 1
-                       /\ gens[g].ffree = IF HoldersF(g) # {} THEN 0 ELSE 1
+                       /\ \A f \in Fns : gens[g].ffree[f] = IF HoldersF(g, f) # {} THEN 0 ELSE 1
 
 (* everything a call touches is alive as long as the handle / closure exists *)
 Callable(m) == /\ mods[m].nfree = 0
                /\ gens[mods[m].g].cfree = 0
-               /\ UsesClosure(mods[m].v) => gens[mods[m].g].ffree = 0
+               /\ \A f \in Uses(mods[m].v) : gens[mods[m].g].ffree[f] = 0
 CallValid == /\ \A h \in Handles : hnd[h] # 0 => Callable(hnd[h])
              /\ \A c \in Closures : clo[c] # 0 => Callable(clo[c])
 
@@ -239,12 +251,17 @@ NoResurrection ==
                        /\ mods[m].nfree = 1 => mods'[m] = mods[m]]_vars
 
 (* packages never influence each other: the counts of a module only move    *)
-(* when one of its own holders comes or goes, and the closure state of a    *)
-(* generation only moves by the one call that observed it                   *)
+(* when one of its own holders comes or goes, and the state of a registered  *)
+(* closure only moves by the one call that observed it: the call of a module *)
+(* of that runtime whose script calls that very closure                      *)
 Isolation ==
     [][/\ \A m \in Mods : (mods'[m].rc # mods[m].rc \/ mods'[m].nfree # mods[m].nfree)
                               => HoldersM(m)' # HoldersM(m)
-       /\ \A g \in Gens : gens'[g].cnt # gens[g].cnt
-                              => /\ gens'[g].cnt = gens[g].cnt + 1
-                                 /\ obs' = [k |-> KSum(1), rc |-> RcTag(g), n |-> gens[g].cnt]]_vars
+       /\ \A g \in Gens : \A f \in Fns : gens'[g].cnt[f] # gens[g].cnt[f]
+              => /\ gens'[g].cnt[f] = gens[g].cnt[f] + 1
+                 /\ obs'.rc = RcTag(g)
+                 /\ \E v \in Versions :
+                      /\ obs'.k = KSum(v)
+                      /\ \/ UsesSeq(v)[1] = f /\ obs'.na = gens[g].cnt[f]
+                         \/ UsesSeq(v)[2] = f /\ obs'.nb = gens[g].cnt[f]]_vars
 =============================================================================
